@@ -1,5 +1,5 @@
 """Registry of all translators: Gen/<name>.v  <-  function returning Coq text."""
-from translate import ops, gatecode, wrapper, groupsum, guards, parse
+from translate import ops, gatecode, wrapper, groupsum, guards, parse, models
 
 ALL = {
     "Ops": ops.gen_ops,
@@ -11,4 +11,5 @@ ALL = {
     "GroupSumSrc": groupsum.gen_groupsum,
     "Guards": guards.gen_guards,
     "Parse": parse.gen_parse,
+    "Models": models.gen_models,
 }
